@@ -11,7 +11,10 @@ package main
 //       - the JSON key of the field `F` when the value is `<src>.F` or `f(<src>.F)` (one-argument call),
 //       - "<local>" for a local identifier, "<const>" for a literal, "=<text>" for a string literal in the
 //         security-scheme switch, "<make>" for `make(…)`, "<call>" for other calls on non-source values;
-//   * fields tagged `json:"-"` (Extensions) are skipped.
+//   * fields tagged `json:"-"` (Extensions) are skipped;
+//   * `<fn>Assigned` lists (ToV3SchemaRef, FromV3SchemaRef): the JSON keys of the fields of the destination
+//     variable that statements of the function assign outside the literal (`v.F = …`, `v.F, _ = …`,
+//     `v.F[k] = …`), in source order without repetition — the typed fields (discriminator, items, …).
 
 import (
 	"fmt"
@@ -303,6 +306,51 @@ func (c *ctx17) secBackTable() []row17 {
 	return rows
 }
 
+// assignedFields: JSON keys of the fields of dstVar assigned by statements of fn (see the rules above).
+func (c *ctx17) assignedFields(fnName, dstVar, dstType string) []string {
+	fn := c.convFn[fnName]
+	if fn == nil {
+		c.unrec = append(c.unrec, "function "+fnName+" not found")
+		return nil
+	}
+	dp := strings.SplitN(dstType, ".", 2)
+	dstTags, err := c.structTags(dp[0], dp[1])
+	if err != nil {
+		c.unrec = append(c.unrec, fmt.Sprintf("%s: tags: %v", fnName, err))
+		return nil
+	}
+	var out []string
+	seen := map[string]bool{}
+	ast.Inspect(fn.Body, func(n ast.Node) bool {
+		as, ok := n.(*ast.AssignStmt)
+		if !ok {
+			return true
+		}
+		for _, l := range as.Lhs {
+			if ix, ok := l.(*ast.IndexExpr); ok {
+				l = ix.X
+			}
+			ls, ok := l.(*ast.SelectorExpr)
+			if !ok || exprText(ls.X) != dstVar {
+				continue
+			}
+			pos := c.fset.Position(as.Pos())
+			dk, ok := dstTags[ls.Sel.Name]
+			if !ok {
+				c.unrec = append(c.unrec, fmt.Sprintf("%s:%d: unknown destination field %s", filepath.Base(pos.Filename), pos.Line, ls.Sel.Name))
+				continue
+			}
+			if dk == "-" || seen[dk] {
+				continue
+			}
+			seen[dk] = true
+			out = append(out, dk)
+		}
+		return true
+	})
+	return out
+}
+
 func leanStr(s string) string {
 	return `"` + strings.ReplaceAll(strings.ReplaceAll(s, `\`, `\\`), `"`, `\"`) + `"`
 }
@@ -345,6 +393,23 @@ func extractCopyTables(repo string) (string, error) {
 				sep = ""
 			}
 			fmt.Fprintf(&b, "  (%s, %s)%s\n", leanStr(r.dst), leanStr(r.src), sep)
+			n++
+		}
+		b.WriteString("]\n\n")
+	}
+	for _, t := range []struct {
+		name string
+		keys []string
+	}{
+		{"toV3SchemaAssigned", c.assignedFields("ToV3SchemaRef", "v3Schema", "openapi3.Schema")},
+		{"fromV3SchemaAssigned", c.assignedFields("FromV3SchemaRef", "v2Schema", "openapi2.Schema")},
+	} {
+		fmt.Fprintf(&b, "def %s : List String := [", t.name)
+		for i, k := range t.keys {
+			if i > 0 {
+				b.WriteString(", ")
+			}
+			b.WriteString(leanStr(k))
 			n++
 		}
 		b.WriteString("]\n\n")
